@@ -210,6 +210,14 @@ Fixpoint in_map (cs ps : list Z) : bool :=
 Definition stride_sum (cs ps : list Z) : Z :=
   fold_right Z.add 0
     (map (fun k => nth k cs 0 * prod (firstn k ps)) (seq 0 (length cs))).
+(* NumPy's C-order (row-major) flat index of the multi-index idx in an array of the given shape
+   (Horner form): what `coverage.reshape(self.shape)[idx]` addresses *)
+Fixpoint horner (acc : Z) (idx shape : list Z) : Z :=
+  match idx, shape with
+  | i :: idx', n :: shape' => horner (acc * n + i) idx' shape'
+  | _, _ => acc
+  end.
+Definition c_order (idx shape : list Z) : Z := horner 0 idx shape.
 (* the inverse: repeated mod / div *)
 Fixpoint index2pixel (ps : list Z) (i : Z) : list Z :=
   match ps with
